@@ -106,7 +106,8 @@ NewSub(n, m) == [cls |-> "Sub", n |-> n, tag |-> "base", items |-> <<>>, m |-> m
 Ops ==
   {[k |-> kk, on |-> x] : kk \in {"value", "twice", "prop", "both", "bump_b", "bump_default", "bump_kw", "push_a", "push_n", "pick_R", "pick_G", "pick_var", "set_n", "aug_n", "len_items", "sum_items", "tag_set"}, x \in {"o", "s"}}
   \cup {[k |-> kk] : kk \in {"make", "make_value", "tags", "set_m", "c_G", "c_R", "c_eq", "c_ne", "enum_value", "enum_name", "obj_list_idx", "obj_list_loop", "obj_list_append", "temp_base", "temp_sub",
-                             "fresh_sub", "use_fn", "enum_list", "enum_dict", "tern_field", "max_fields", "sub_in_base_list"}}
+                             "fresh_sub", "use_fn", "enum_list", "enum_dict", "tern_field", "max_fields", "sub_in_base_list",
+                             "p_fields", "r_fields", "p_fields_kw", "p_area", "p_area_kw", "p_area_kw2"}}
 
 Undef == [undef |-> TRUE]
 IsUndef(st) == "undef" \in DOMAIN st
@@ -158,6 +159,13 @@ Apply(T, op, st) ==
     [] k = "enum_dict" -> [st EXCEPT !.n = st.b]
     [] k = "tern_field" -> [st EXCEPT !.n = IF st.o.n > 0 THEN CallArgs(T, st.o, "value", [z \in {} |-> 0]).ret ELSE 1]
     [] k = "max_fields" -> [st EXCEPT !.n = Max(st.o.n, st.s.m)]
+    \* class P: __init__(x, y = 3) runs  self.y = y ; self.x = x + self.y ; self.z = self.x * 2  IN THAT ORDER (the fields are
+    \* declared x, y, z); area(w = 2, h = 5) = x * w + y * h
+    [] k \in {"p_fields", "r_fields"} -> [st EXCEPT !.n = (st.a + 3) * 100 + 3 * 10 + (st.a + 3) * 2]      \* R: the same constructor, fields declared in another order than assigned
+    [] k = "p_fields_kw" -> [st EXCEPT !.n = (st.a + st.b) * 100 + st.b]
+    [] k = "p_area" -> [st EXCEPT !.n = (st.a + 3) * 2 + 3 * 5]
+    [] k = "p_area_kw" -> [st EXCEPT !.n = (st.a + 3) * 2 + 3 * 1]                           \* p.area(h=1): w keeps its default
+    [] k = "p_area_kw2" -> [st EXCEPT !.n = (st.a + 3) * 4 + 3 * 1]                          \* p.area(h=1, w=4)
     [] k = "sub_in_base_list" -> [st EXCEPT !.n = 2]                                     \* bl: list[Base] = [o]; bl.append(Base(b)); n = len(bl)
 
 \* ---- text
@@ -186,6 +194,8 @@ ClassText(V) ==
   \o "class Base:\n\tn: int\n\ttag: str\n\titems: list[int]\n\n\tdef __init__(self, n: int) -> None:\n\t\tself.n = n\n\t\tself.tag = 'base'\n\t\tself.items = []\n\n"
   \o JoinS([i \in DOMAIN Order |-> MethText(Order[i], T.Base[Order[i]], Order[i] \in DOMAIN T.Sub)], "")
   \o "\t@classmethod\n\tdef make(cls, n: int) -> 'Base':\n\t\treturn cls(n + 10)\n\n"
+  \o "class P:\n\ty: int\n\tx: int\n\tz: int\n\n\tdef __init__(self, x: int, y: int = 3) -> None:\n\t\tself.y = y\n\t\tself.x = x + self.y\n\t\tself.z = self.x * 2\n\n\tdef area(self, w: int = 2, h: int = 5) -> int:\n\t\treturn self.x * w + self.y * h\n\n"
+  \o "class R:\n\tx: int\n\ty: int\n\tz: int\n\n\tdef __init__(self, x: int, y: int = 3) -> None:\n\t\tself.y = y\n\t\tself.x = x + self.y\n\t\tself.z = self.x * 2\n\n"
   \o "class Sub(Base):\n\tm: int\n\n\tdef __init__(self, n: int, m: int) -> None:\n\t\tsuper().__init__(n)\n\t\tself.m = m\n\n"
   \o JoinS([i \in DOMAIN Order |-> IF Order[i] \in DOMAIN T.Sub THEN MethText(Order[i], T.Sub[Order[i]], FALSE) ELSE ""], "")
 
@@ -227,6 +237,12 @@ OpText(op) ==
     [] k = "enum_dict" -> Line("cd: dict[Color, int] = {Color.R: a, Color.G: b}") \o Line("n = cd[Color.G]")
     [] k = "tern_field" -> Line("n = o.value() if o.n > 0 else 1")
     [] k = "max_fields" -> Line("n = max(o.n, s.m)")
+    [] k = "p_fields" -> Line("pa = P(a)") \o Line("n = pa.x * 100 + pa.y * 10 + pa.z")
+    [] k = "r_fields" -> Line("ra = R(a)") \o Line("n = ra.x * 100 + ra.y * 10 + ra.z")
+    [] k = "p_fields_kw" -> Line("pb = P(a, y=b)") \o Line("n = pb.x * 100 + pb.y")
+    [] k = "p_area" -> Line("pc = P(a)") \o Line("n = pc.area()")
+    [] k = "p_area_kw" -> Line("pd = P(a)") \o Line("n = pd.area(h=1)")
+    [] k = "p_area_kw2" -> Line("pe = P(a)") \o Line("n = pe.area(h=1, w=4)")
     [] k = "sub_in_base_list" -> Line("bl: list[Base] = [o]") \o Line("bl.append(Base(b))") \o Line("n = len(bl)")
 
 Declaring == {"obj_list_idx", "obj_list_loop", "obj_list_append", "use_fn", "enum_list", "enum_dict", "sub_in_base_list"}
